@@ -617,7 +617,11 @@ def run_check(chk: PropertyCheck, tier: str, seed: int, replay: str | None = Non
     evaluated = []
     skipped = 0
     impl_errs = {}
+    t_impl0 = time.time()
+    escalated = (not replay) and bool(changed_fns) and tier == "quick"
     for c in cases:
+        if escalated and time.time() - t_impl0 > chk.escalation_budget_s / 2 and len(evaluated) > 300:
+            break  # escalated quick run: bounded extra effort (the thorough tier has no such bound)
         obs, sk = safe_impl(chk, c)
         if sk:
             skipped += 1
